@@ -19,6 +19,7 @@ import (
 	"github.com/rs/zerolog"
 	"github.com/sirupsen/logrus"
 	"go.uber.org/zap"
+	"math"
 	"strconv"
 	"strings"
 
@@ -888,6 +889,13 @@ func (thisListener *GruleV3ParserListener) ExitIntegerLiteral(ctx *grulev3.Integ
 	receiver, ok := thisListener.Stack.Peek().(ast.IntegerLiteralReceiver)
 	if !ok {
 		thisListener.StopParse = true
+
+		return
+	}
+	if _, isSalience := receiver.(*ast.Salience); isSalience && (lit.Integer < math.MinInt32 || lit.Integer > math.MaxInt32) {
+		// Salience.AcceptIntegerLiteral panics on such a value: report it like any other literal out of range
+		thisListener.StopParse = true
+		thisListener.ErrorCallback.AddError(fmt.Errorf("salience value %d is out of range", lit.Integer))
 
 		return
 	}
